@@ -1,6 +1,6 @@
 #!/bin/bash
 # Run the repository's pinned baseline (guard off) and compare with BASELINE.json: every stable_pass test must pass.
-cd /repo && export GOFLAGS=-mod=mod GOPROXY=off
+cd ${BASELINE_REPO:-/repo} && export GOFLAGS=-mod=mod GOPROXY=off
 out=${1:-/tmp/baseline.json}
 go test -json -vet=off -count=1 -timeout 25m ./... > "$out" 2>/dev/null
 python3 - "$out" <<'PY'
